@@ -361,6 +361,7 @@ func c08Step(refs []c08Ref) {
 	vs.Assert(uint64(mem.Len()) == newLen, "memory grows to the touched word boundary only")
 
 	// memory image
+	newLen = vs.Concretize(newLen)
 	img := make([]byte, newLen)
 	copy(img, mem0)
 	if x.write != nil {
